@@ -9,12 +9,19 @@ import graph (cycles, self-imports, dangling targets).
 `Imports progs p q` : an `import_internally:…` label of `p` (after the relabelling loop of
 `labelled_programs`) names the path `q`.
 
-Not proved here, only exercised by the harness: `json.dumps` + compaction regex + `json.loads`,
-`sqlite3`, and the agreement of the model with the Python (correspondence).
+The JSON TEXT of `get_json` (`json.dumps(data, indent=2)` + the span-compaction `regex.sub`) is modelled in
+Model/JsonText.lean; section "B1" at the end of this file: the compaction never touches a string literal, deletes
+white space only and preserves the parsed value of every text; the text lexes to the tokens of the data.
+
+`C11_json_roundtrip`: it parses back to the data.
+
+Not proved here, only exercised by the harness: `sqlite3`, and the agreement of the models with the Python
+(correspondence; for the text layer BYTE FOR BYTE against the real `get_json`).
 -/
 import Paroxy.Proofs.MakeDbResolved
 import Paroxy.Spec.Filter
 import Paroxy.Proofs.Imported
+import Paroxy.Proofs.JsonText
 namespace Paroxy.Props.C11
 open Paroxy Paroxy.DB
 
@@ -589,5 +596,98 @@ theorem C11_feeds_filter (h : makeDb toTaxa progs = .ok db) (hn : (pathsOf progs
                              exportations := (toFilterDB db).exportations } :=
   let ⟨ps, h1, h2, h3, _⟩ := Paroxy.Filter.addImported_spec (toFilterDB db) (makeDb_filter_wf h hn hne) orc
   ⟨ps, h1, h2, h3⟩
+
+/-! ## B1 — the JSON text written by `get_json` (Model/JsonText.lean)
+
+`getJsonText v = compact (dumps2 v ++ "\n")` where `dumps2` is `json.dumps(·, indent=2)` (`ensure_ascii=True`) and
+`compact` the `regex.sub(r"\s*\[\n\s*(\d+),\n\s*(\d+)\n\s*\](,?)\s+", r"[\1,\2]\3", ·)` of `get_json`. -/
+section JsonTextLayer
+open Paroxy.JsonText
+
+/-- **No raw newline in a string literal.** Whatever the string (a source text containing `"[\n 1,\n 2\n]"` included),
+its JSON literal consists of printable ASCII only: a newline is written `\n` (two characters), so the literal
+newlines the compaction regex requires after `[` cannot occur inside a string. -/
+theorem dumps_string_has_no_raw_newline (s : Str) :
+    (∀ x ∈ quote s, 32 ≤ x ∧ x ≤ 126) ∧ (10 : Nat) ∉ quote s :=
+  ⟨quote_printable s, fun h => by have := quote_printable s 10 h; omega⟩
+
+/-- **The compaction changes span lists only** — three facts, each for EVERY text `t`, not only those `dumps2` writes:
+(1) what it deletes is white space (the text without white space is unchanged);
+(2) from every lexer state — inside a string literal included — the token sequence of a text that lexes is unchanged
+    (so no character of a string literal is deleted: a match cannot start or end inside one);
+(3) where no match starts, the character is copied. -/
+theorem C11_compact_only_span_lists :
+    (∀ t : Str, noWs (compact t) = noWs t) ∧
+    (∀ (t : Str) (st : St) (toks : List Tok), lex st t = some toks → lex st (compact t) = some toks) ∧
+    (∀ (n c : Nat) (t : Str), matchAt (c :: t) = none → compactF (n + 1) (c :: t) = c :: compactF n t) :=
+  ⟨fun t => noWs_compactF _ t, lex_compact, fun n c t h => by simp [compactF, h]⟩
+
+/-- The scanner is well defined: a match consumes at least one character, so the fuel `t.length` of `compact` is never
+exhausted — any larger fuel gives the same text. -/
+theorem C11_compact_fuel (n : Nat) (t : Str) (h : t.length ≤ n) : compactF n t = compact t :=
+  compactF_eq_compact n t h
+
+/-- **Compaction preserves the parsed value**, for every text that parses. -/
+theorem C11_compact_preserves_loads (t : Str) (v : J) (h : loads t = some v) : loads (compact t) = some v :=
+  loads_compact t v h
+
+/-- **The text of `get_json` lexes to the tokens of the data**, for every value: each string literal of the file is
+exactly the escaped form `escStr s` of the string it stands for (sources are never altered by the compaction), each
+number its decimal digits, in the order of the data. -/
+theorem C11_text_tokens (v : J) :
+    lex .out (dumps2 v ++ [10]) = some (toksV v) ∧ lex .out (getJsonText v) = some (toksV v) :=
+  ⟨lex_dumps2 v, lex_getJsonText v⟩
+
+/-- Token-level form: the text layer (layout, escaping into printable ASCII, compaction) for every value, without
+hypothesis on its strings: the text parses back to `v` as soon as the tokens of `v` do. -/
+theorem C11_json_roundtrip_of_tokens (v : J) (h : parseToks (toksV v) = some v) : loads (getJsonText v) = some v := by
+  unfold loads; rw [lex_getJsonText v]; exact h
+
+/-- Strings and numbers come back: `decode (escStr s) = s` (all escapes of `ensure_ascii=True`: `\"`, `\\`, `\n`, `\r`,
+`\t`, `\b`, `\f`, `\u00XX`, `\uXXXX`, surrogate pairs of astral characters, lone surrogates) and `int(str(n)) = n`. -/
+theorem C11_leaves_roundtrip :
+    (∀ s : Str, strOk s = true → decode (escStr s) = some s) ∧ (∀ n : Nat, numOf (JsonText.natDigits n) = some n) :=
+  ⟨decodeEsc, numRoundtrip⟩
+
+/-- **The JSON written by `collect` parses back to exactly what was computed.** For every value `v` of the database
+shape — any size and nesting, any strings (sources containing laid-out look-alike span lists, quotes, backslashes,
+control characters, non-ASCII and astral characters, lone surrogates) — `loads (compact (dumps2 v ++ "\n")) = some v`.
+`J.ok`: every code point is below 0x110000 and no high surrogate code point is directly followed by a low one inside a
+string — Python's own `json.loads(json.dumps(s))` merges such a pair into one astral character (`example` below);
+texts decoded from UTF-8 files hold no surrogate at all. -/
+theorem C11_json_roundtrip (v : J) (hok : J.ok v = true) : loads (getJsonText v) = some v :=
+  C11_json_roundtrip_of_tokens v (parseToks_toksV decodeEsc v hok)
+
+/-- the hypothesis `J.ok` is needed, in the model as in Python: two surrogate items come back as one character. -/
+example : loadsIs (getJsonText (.str [55296, 56320])) (.str [65536]) = true ∧ J.ok (.str [55296, 56320]) = false := by
+  decide +kernel
+
+/-- Non-vacuity: a database value whose source string contains a laid-out look-alike span list, next to a real span
+list. The look-alike survives character for character; the real one is compacted; the text parses back to the value. -/
+def demoSource : Str := codesOf "t = \"[\n 1,\n 2\n]\"\n[\n      3,\n      8\n    ],\n"
+def demoDb : J :=
+  .obj [(codesOf "programs", .obj [(codesOf "a.py", .obj [
+          (codesOf "timestamp", .str (codesOf "2021")),
+          (codesOf "source", .str demoSource),
+          (codesOf "labels", .obj [(codesOf "flow/loop", .arr [.arr [.num 3, .num 8], .arr [.num 6, .num 7]])]),
+          (codesOf "taxa", .obj [])])]),
+        (codesOf "labels", .obj [(codesOf "flow/loop", .arr [.str (codesOf "a.py")])]),
+        (codesOf "importations", .obj [(codesOf "a.py", .arr [])])]
+
+example : J.ok demoDb = true := by decide +kernel
+example : loadsIs (getJsonText demoDb) demoDb = true := by decide +kernel
+example : (parseToks (toksV demoDb)).isSome = true := by decide +kernel
+/-- the compaction did act (the text got shorter) and the real span list is on one line. -/
+example : (getJsonText demoDb).length < (dumps2 demoDb ++ [10]).length := by decide +kernel
+example : strOf (dumpsV 6 (.arr [.arr [.num 3, .num 8], .arr [.num 6, .num 7]])) =
+    "[\n        [\n          3,\n          8\n        ],\n        [\n          6,\n          7\n        ]\n      ]" := by
+  decide +kernel
+example : compact (codesOf "{\n  \"k\": [\n    [\n      3,\n      8\n    ],\n    [\n      6,\n      7\n    ]\n  ],\n  \"s\": \"[\\n 1,\\n 2\\n]\"\n}\n")
+    = codesOf "{\n  \"k\": [[3,8],[6,7]],\n  \"s\": \"[\\n 1,\\n 2\\n]\"\n}\n" := by decide +kernel
+/-- before the fix 1a46ae2 (F05) the pattern used `\s+` and matched inside sources; a RAW look-alike outside a string
+is still compacted (this is what the pattern is for), inside a lexable string literal it cannot be raw. -/
+example : compact (codesOf "[\n 1,\n 2\n] ") = codesOf "[1,2]" := by decide +kernel
+
+end JsonTextLayer
 
 end Paroxy.Props.C11
